@@ -13,10 +13,19 @@ if TYPE_CHECKING:  # pragma: no cover
     from cashews.backends.interface import Backend
 
 
+async def _empty_iterator():
+    return
+    yield
+
+
 async def _is_disable_middleware(call: AsyncCallable_T, cmd: Command, backend: Backend, *args, **kwargs):
     if backend.is_disable(cmd):
-        if cmd in (Command.GET, Command.GET_MANY):
+        if cmd == Command.GET:
             return kwargs.get("default", None)
+        if cmd == Command.GET_MANY:
+            return tuple(kwargs.get("default", None) for _ in args)
+        if cmd in (Command.SCAN, Command.GET_MATCH):
+            return _empty_iterator()
         return None
     return await call(*args, **kwargs)
 
